@@ -185,10 +185,13 @@ def oracle(ctx, hints, effort):
         if r:
             key = f"{r[0]}:{em}"
             findings.setdefault(key, Finding(key, f"scaled twin (a={a:.3f}) differs: {r[0]}", {"kind": "invariants", "scene": sc, "a": a, "em": em}, r[1], r[2]))
-    for it in range(4 if effort == "routine" else 24):
-        active = it % 2 == 1
-        sc = rough_scene(rng, active)
-        a = float(rng.choice([0.25, 0.5, 2.0, 4.0]))
+    rough = None
+    for it in range(10 if effort == "routine" else 40):
+        active = it % 4 >= 2
+        if it % 2 == 0:
+            rough = rough_scene(rng, active)
+        sc = rough
+        a = [4.0, 0.25][it % 2]          # the same scene scaled up and scaled down
         try:
             evals += 2
             r = check_twin(sc, a, active)
